@@ -240,9 +240,9 @@ const preludeText = `(define-fun wrapu ((x Int) (m Int)) Int (mod x m))
 (declare-fun bitshr (Int Int) Int)
 (declare-fun bytesval ((Array Int Int) Int Int) Int)
 (declare-fun strlen (Int) Int)
-(assert (forall ((s Int)) (! (>= (strlen s) 0) :pattern ((strlen s)))))
+(assert (forall ((s Int)) (! (and (>= (strlen s) 0) (<= (strlen s) 4611686018427387904)) :pattern ((strlen s)))))
 (declare-fun strcat (Int Int) Int)
-(assert (forall ((a Int) (b Int)) (! (= (strlen (strcat a b)) (+ (strlen a) (strlen b))) :pattern ((strcat a b)))))
+(assert (forall ((a Int) (b Int)) (! (=> (<= (+ (strlen a) (strlen b)) 4611686018427387904) (= (strlen (strcat a b)) (+ (strlen a) (strlen b)))) :pattern ((strcat a b)))))
 (declare-fun implements (Int Int) Bool)
 (declare-fun sidx (Int Int) Int)
 (assert (forall ((o Int) (i Int)) (! (= (sidx o i) (+ o i)) :pattern ((sidx o i)))))
